@@ -63,6 +63,14 @@ CLAIMED = {
             "traffic directly behind the opening bytes, plus seeded k-way / byte-wise splits; scope version/type, the protocol the "
             "client parser succeeds with and exactly-once answers are compared with the table for the opening.",
             "TLS record processing and ALPN negotiation are stubbed at selected_alpn_protocol(); WebSocket clients wait for the handshake response before sending frames (RFC 6455 4.1)"),
+    "C14": ("5/C14", "Complete enumeration of lifespan startup script {complete fast/slow/overdue, failed plain/with awaiting cleanup/"
+            "swallowed, raise before/after the startup message, hang, return early, unknown message} x shutdown script {complete "
+            "fast/slow, failed, raise, hang, returned before, unknown message, crash while serving} x worker with a fixed client "
+            "set, plus seeded search over timeouts, 1..5 HTTP/1.1 and HTTP/2 clients whose connection attempts fall before, "
+            "during and after startup, around the trigger and inside/after the grace period, with requests that write and read "
+            "per-connection state keys; ordering judged on global event sequence numbers, timeouts on exact virtual instants.",
+            "the listening socket exists before worker_serve starts; an application that returns from the lifespan scope "
+            "without answering is not judged for whether serving starts; only top-level state keys are compared (the copy is shallow by design)"),
     "C15": ("5/C15", "Enumeration of connection phase at the trigger {idle, partial head, short/long/stuck request, HTTP/2 idle/short/"
             "stuck stream, open WebSocket} x trigger source {callable, max_requests} x worker, plus seeded search over 1..6 such "
             "connections, graceful_timeout / shutdown_timeout values, lifespan shutdown programs (fast, slow, hanging) and late "
